@@ -249,7 +249,7 @@ def run(facts, rep, tier, ctx):
     # R05.6
     from ..report import Report
     scratch = Report("x")
-    c01.table_m(facts, scratch, "M", "Mk", ops_filter=("read_dir", "open_file"))
+    c01.table_m(facts, scratch, "M", "Mk", ops_filter=("read_dir", "open_file") + c01.TWO_PATH_OPS)
     k = 0
     for o in scratch.obligations:
         if o["rule"] == "M":
@@ -269,4 +269,23 @@ def run(facts, rep, tier, ctx):
         for o in scratch.obligations:
             if o["rule"] in ("R18.3", "R18.5"):
                 rep.ob("R05.7", o["fn"], o["key"].split("|")[2], o["ok"], o["detail"], o["loc"])
+    # the async port has its own copies of all the observers
+    wa = World(facts, True)
+    rep.ob("R05.A", "async_vfs", "async world present", wa.present(), "", "")
+    if wa.present():
+        from .c10 import _Prefixed
+        A = _Prefixed(rep, "A")
+        k = child_path_rules(facts, A, wa, D) + is_kind_rules(facts, A, wa, D) + walk_rules(facts, A, wa, D) + \
+            memory_listing_rules(facts, A, wa, D)
+        k += c09.listing_rules(facts, A, wa, "R05.5")
+        k += c09.resolver_rules(facts, A, wa, "R05.5r")
+        k += c07.delegation(facts, A, wa, "R05.5a", D)
+        scratch = Report("xa")
+        c01.table_m(facts, scratch, "M", "Mk", self_ty=wa.memory, trait="AsyncFileSystem",
+                    ops_filter=("read_dir", "open_file") + c01.TWO_PATH_OPS)
+        for o in scratch.obligations:
+            if o["rule"] == "M":
+                k += 1
+                A.ob("R05.6", o["fn"], o["key"].split("|")[2], o["ok"], o["detail"], o["loc"])
+        rep.floor("async-world observer obligations", k, 40)
     rep.assume("ordering inside one directory is unspecified")
